@@ -1,0 +1,83 @@
+//! Read-only observation points for external verification harnesses.
+//! Compiled only with `--cfg garnish_verif`; adds no behaviour.
+use crate::basic::companion::BasicDataCompanion;
+use crate::{BasicData, BasicDataCustom, BasicGarnishData};
+
+impl<T, Companion> BasicGarnishData<T, Companion>
+where
+    T: BasicDataCustom,
+    Companion: BasicDataCompanion<T>,
+{
+    /// `(start, cursor, size)` of the instruction, jump table, symbol table, expression symbol, data and custom blocks.
+    pub fn verif_block_layout(&self) -> [(usize, usize, usize); 6] {
+        let b = |s: &crate::basic::storage::StorageBlock| (s.start, s.cursor, s.size);
+        [
+            b(self.instruction_block()),
+            b(self.jump_table_block()),
+            b(self.symbol_table_block()),
+            b(self.expression_symbol_block()),
+            b(self.data_block()),
+            b(self.custom_data_block()),
+        ]
+    }
+
+    /// Length of the single heap vector backing all blocks.
+    pub fn verif_heap_len(&self) -> usize {
+        self.data().len()
+    }
+
+    /// Addresses on the input-value stack, bottom first.
+    pub fn verif_value_chain(&self) -> Vec<usize> {
+        let mut out = Vec::new();
+        let mut current = self.current_value();
+        while let Some(index) = current {
+            match self.get_from_data_block_ensure_index(index) {
+                Ok(BasicData::Value(previous, value)) => {
+                    out.push(*value);
+                    current = Some(*previous);
+                }
+                Ok(BasicData::ValueRoot(value)) => {
+                    out.push(*value);
+                    current = None;
+                }
+                _ => break,
+            }
+            if out.len() > 1_000_000 {
+                break;
+            }
+        }
+        out.reverse();
+        out
+    }
+
+    /// Return addresses of the active frames, outermost first.
+    pub fn verif_frame_chain(&self) -> Vec<usize> {
+        let mut out = Vec::new();
+        let mut current = self.current_frame();
+        while let Some(index) = current {
+            if index == 0 {
+                break;
+            }
+            let ret = match self.get_from_data_block_ensure_index(index - 1) {
+                Ok(BasicData::JumpPoint(r)) => *r,
+                _ => break,
+            };
+            out.push(ret);
+            current = match self.get_from_data_block_ensure_index(index) {
+                Ok(BasicData::Frame(previous, _)) => Some(*previous),
+                Ok(BasicData::FrameIndex(previous)) => Some(*previous),
+                _ => None,
+            };
+            if out.len() > 1_000_000 {
+                break;
+            }
+        }
+        out.reverse();
+        out
+    }
+
+    /// Debug rendering of one cell of the data block (block-relative index).
+    pub fn verif_data_cell(&self, index: usize) -> Option<String> {
+        self.get_from_data_block_ensure_index(index).ok().map(|d| format!("{:?}", d))
+    }
+}
